@@ -51,7 +51,8 @@ def blocks_of(start, cig):
             cur[1] = pos
         elif op == 1:
             if cur is None:
-                cur = [pos, pos]
+                # an alignment (part) beginning with inserted bases carries the insertion behind the preceding base
+                cur = [pos - 1, pos]
         elif op == 3:
             if cur is not None:
                 out.append(tuple(cur))
@@ -60,6 +61,18 @@ def blocks_of(start, cig):
     if cur is not None:
         out.append(tuple(cur))
     return out
+
+
+def _edge_insertion(pt, v):
+    core = [(op, l) for op, l in pt["cigar"] if op not in (4, 5)]
+    if not core:
+        return False
+    end = pt["start"] + sum(l for op, l in core if op in (0, 2, 3, 7, 8))
+    if core[-1][0] == 1 and end == v.pos + 1 and core[-1][1] == len(v.alt) - 1:
+        return True
+    if core[0][0] == 1 and pt["start"] == v.pos + 1 and core[0][1] == len(v.alt) - 1:
+        return True
+    return False
 
 
 def cigar_class(cig):
@@ -97,6 +110,7 @@ def run_one(rng, counters):
             "hidden_frac": rng.choice([0.0, 0.0, 0.3]),
             "margin": rng.choice([3, 12, 40]),
             "edge_frac": rng.choice([0.0, 0.3, 0.6]),
+            "edge_ins": rng.choice([0.0, 0.5]),
             "qual_mode": rng.choice(["const", "random"]),
         }
         sim = genome.simulate(rng, tmp, p)
@@ -109,6 +123,8 @@ def run_one(rng, counters):
             return [], set(), desc
         variants = tables[0].variants
         nsi = NumericSampleIds()
+        if not sim.reads:
+            return [], set(), desc
         reader = ReadSetReader([sim.bams[0]], None, nsi)
         try:
             rs = reader.read(c, variants, "sampleA", sim.ref[c] if use_ref else None)
@@ -160,6 +176,12 @@ def run_one(rng, counters):
                         counters["pairs_correct"] = counters.get("pairs_correct", 0) + 1
                     if cls.split("/")[0] != "M" or v.kind != "snv":
                         keys.add(cls + ("/ref" if use_ref else "/noref") + "/%d" % (min(9, v.pos - min(b[0] for b in touching))))
+                elif v.kind == "ins" and truth == 1 and any(_edge_insertion(pt, v) for pt in parts):
+                    # the alignment begins/ends with exactly the inserted bases: it carries the ALT allele completely
+                    counters["pairs_edge_insertion"] = counters.get("pairs_edge_insertion", 0) + 1
+                    if r_ is not None and r_[0] == 0:
+                        viol.append({"mech": "wrong-allele:ins:edge" + (":noref" if not use_ref else ""),
+                                     "msg": "fragment %s (alignments %r) begins/ends with the inserted bases of %r but allele REF was recorded %r" % (name, [(pt["start"], pt["cigar"]) for pt in parts], v.as_list(), r_)})
                 else:
                     counters["pairs_partial_not_judged"] = counters.get("pairs_partial_not_judged", 0) + 1
                     if r_ is not None and r_[0] != truth:
